@@ -38,6 +38,7 @@ TinyU == {U5}
 TinyV == {Zero, One}
 TinyP == {BigOf(4)}
 TinyF == {F(1), F(10)}
+NoValues == {}
 
 \* volume plans: Record counts around INDEX_GROUP_SIZE = 512 and its multiples, Stream counts around 2^k
 \* (the rotations of the sequentially filled AVL trees of index.c depend on the node count only)
@@ -83,4 +84,9 @@ Next == \/ Running /\ \E o \in CandInit(st) : Do(o)
 Spec == Init /\ [][Next]_vars
 View == <<st, done>>
 Emit == ~done \/ PrintT(<<"PLAN", ToJson(Predict(hist))>>)
+\* per-transition emission (ACTION_CONSTRAINT, with VIEW): every transition of the state graph once, with the
+\* shortest history that reaches its source state
+EmitT == done' \/ PrintT(<<"PLAN", ToJson(Predict(hist'))>>)
+OneU == {U5}
+OneV == {One}
 =============================================================================
